@@ -30,7 +30,7 @@ ASSUMPTIONS = ['symbolic operands are rendered into the listing as placeholder c
 EXPLANATION = ('decompile_script runs symbolically (a) on every byte string of length <= 2 (3 thorough): it returns or raises, Tape.read is '
                'never called with a negative size, and for the bytes b2 = compile(listing) one more round trip is the identity; (b) per opcode '
                'with exact-size symbolic operands: the listing recompiles to the identical bytes')
-MUST_REACH = ['arb_listing', 'arb_error', 'rt_ok']
+MUST_REACH = ['arb_listing', 'arb_error', 'rt_ok', 'hdr_listing', 'hdr_error']
 
 
 class BackwardRead(SxError):
@@ -114,6 +114,32 @@ def h_arbitrary(c, pkg, n, split=None):
         c.check('compiler_output_round_trips', r4[0] == 'ok' and len(r4[1]) == len(b2) and bytes_eq(r4[1], b2),
                 got=repr(r4)[:200], b2=b2)
     c.observe(ok=True, listing=src)
+
+
+# ------------------------------------------------------------------------------ (a') size fields of every instruction
+EDGE = (0x00, 0x01, 0x02, 0x7f, 0x80, 0xfb, 0xff)
+
+
+def h_header(c, pkg, op, n):
+    """opcode `op` followed by n bytes drawn from EDGE (lengths 0/1/2, sign-bit and all-ones values, the one-byte
+    instructions FALSE / TRUE / PUSH0 and NOP codes): every size field of the instruction, including the second one of
+    two-block instructions, takes boundary values on both sides of 2^7 / 2^15 / 2^16"""
+    stubs.CONFIG.log2_max_bits = 72
+    code = _op(pkg, op) if isinstance(op, str) else op
+    rest = c.bytes('rest', n)
+    for x in items_of(rest):
+        c.assume(mk_bool(z3.Or(*[zi(x) == v for v in EDGE])))
+    data = bytes([code]) + rest
+    c.input('data', data)
+    r = _decompile(c, pkg, data)
+    if r[0] == 'backward':
+        return
+    if r[0] == 'raise':
+        c.check('error_is_an_ordinary_exception', isinstance(r[1], (Exception, pkg.errors.ScriptExecutionError,
+                                                                 pkg.errors.SyntaxError)), got=repr(r[1]))
+        c.reach('hdr_error')
+    else:
+        c.reach('hdr_listing')
 
 
 class _Timeout(Exception):
@@ -355,6 +381,19 @@ def _p_arb(tier):
     return out
 
 
+HEADER_OPS = ['OP_IF', 'OP_IF_ELSE', 'OP_TRY_EXCEPT', 'OP_DEF', 'OP_LOOP', 'OP_PUSH1', 'OP_PUSH2', 'OP_WRITE_CACHE', 'OP_READ_CACHE',
+              'OP_READ_CACHE_SIZE', 'OP_SET_FLAG', 'OP_UNSET_FLAG', 'OP_GET_VALUE', 'OP_DIV_INT', 'OP_MOD_INT', 'OP_DIV_FLOAT',
+              'OP_MOD_FLOAT', 'OP_MERKLEVAL', 'OP_SWAP', 'OP_CHECK_MULTISIG', 'OP_PUSH0']
+
+
+def _p_hdr(tier):
+    out = [{'op': op, 'n': (5 if tier == 'quick' else 6)} for op in HEADER_OPS]
+    out += [{'op': code, 'n': 4} for code in (92, 128, 255)]
+    if tier != 'quick':
+        out += [{'op': op, 'n': 4} for op in NOARG + ONEBYTE if op not in HEADER_OPS]
+    return out
+
+
 def _sig(v):
     p = v['params']
     return {'harness': v['harness'], 'obligation': v['obligation'], 'op': p.get('op')}
@@ -363,4 +402,5 @@ def _sig(v):
 HARNESSES = [
     HarnessSpec('arbitrary', h_arbitrary, _p_arb, replay=r_arbitrary, concrete=c_arbitrary, witness_every=7, signature=_sig),
     HarnessSpec('roundtrip', h_roundtrip, _p_rt, replay=r_roundtrip, concrete=c_roundtrip, signature=_sig),
+    HarnessSpec('header', h_header, _p_hdr, replay=r_arbitrary, signature=_sig),
 ]
